@@ -453,6 +453,31 @@ class Runaway(Exception):
     """the real loop asked for more transitions than any roll-out within the cap can take"""
 
 
+class ExtremeRandom(random.Random):
+    """a legal generator whose random() returns the extreme values of [0, 1): always exactly 0.0 ("zero"), mostly
+    exactly 1 - 2**-53 ("max"), or both interleaved with ordinary draws ("mix").  choices / choice / sample are the stdlib algorithms
+    running on this random() (random.Random routes them through random() when it is overridden)."""
+
+    def __init__(self, seed, mode):
+        super().__init__(seed)
+        self._mode = mode
+
+    def random(self):
+        u = super().random()
+        if self._mode == "zero":
+            return 0.0
+        if self._mode == "max":     # mostly the largest value; never constant: the stdlib's rejection loops
+            return 1.0 - 2.0 ** -53 if u < 0.8 else u      # (Random.choice) need a generator that can move on
+        return 0.0 if u < 0.35 else (1.0 - 2.0 ** -53 if u < 0.7 else u)
+
+
+def make_rng(job):
+    gen_kind = job.get("gen") or "Random"
+    if gen_kind.startswith("extreme-"):
+        return ExtremeRandom(job["seed"], gen_kind.split("-", 1)[1])
+    return random.Random(job["seed"])
+
+
 class DrawLog:
     """the initial distribution, recording the outcome of every draw made from it"""
 
@@ -577,7 +602,7 @@ def run_roll(prob, job, script=None):
     """executes Policy.run_on / POMDPPolicy.run_on once.  Returns dict(traces=[...], out=...)"""
     m = prob.m
     cap, start = job["cap"], job["start"]
-    rng = random.Random(job["seed"])
+    rng = make_rng(job)
     random.seed(job["seed"] + 17)
     if job.get("gen") == "module":         # the default generator of run_on: the `random` module itself
         rng = random
@@ -722,7 +747,7 @@ def run_eval(prob, job, tamper=None):
             log.append((res, dict(kw)))
             return res
 
-    rng = random.Random(job["seed"])
+    rng = make_rng(job)
     n, cap = job["n"], job["cap"]
     try:
         with warnings.catch_warnings():
@@ -1470,7 +1495,7 @@ def add_random_jobs(pipe, rng, tier, base_iid):
             caps = [0, 1, rng.randint(2, maxcap), maxcap]
             for cap in caps:
                 pipe.execute(dict(kind="roll", iid=iid, rep=rep, cap=cap, start=0, ag0=[], seed=rng.randrange(10 ** 6),
-                                  gen=rng.choice(["Random"] * 7 + ["module", "default"])))
+                                  gen=rng.choice(["Random"] * 5 + ["module", "default", "extreme-zero", "extreme-max", "extreme-mix"])))
             for s in dict.fromkeys(given):
                 if s not in listed:
                     continue
@@ -1481,7 +1506,8 @@ def add_random_jobs(pipe, rng, tier, base_iid):
                     ag0 = [0] * m["NN"]
                     ag0[rng.randrange(m["NN"])] = 1
                 pipe.execute(dict(kind="roll", iid=iid, rep=rep, cap=rng.choice([1, 2, maxcap]), start=s + 1, ag0=ag0,
-                                  seed=rng.randrange(10 ** 6)))
+                                  seed=rng.randrange(10 ** 6),
+                                  gen=rng.choice(["Random"] * 4 + ["extreme-zero", "extreme-max"])))
             if m["kind"] == "pomdp" and m["pk"] == "qb":
                 # the same policy object again, now from a given Belief that lists the states in another order and
                 # carries the probability vector of the policy's own initial belief (a different belief with equal
@@ -1502,7 +1528,8 @@ def add_random_jobs(pipe, rng, tier, base_iid):
             if m["kind"] == "mdp":
                 for n in ([1, rng.choice([2, 3, 5])] if quick else [1, 2, rng.choice([3, 5, 8]), 20]):
                     cap = rng.choice([0, 1, 2, 3, 4, 5])
-                    pipe.execute(dict(kind="eval", iid=iid, rep=rep, n=n, cap=cap, seed=rng.randrange(10 ** 6)))
+                    pipe.execute(dict(kind="eval", iid=iid, rep=rep, n=n, cap=cap, seed=rng.randrange(10 ** 6),
+                                      gen=rng.choice(["Random"] * 4 + ["extreme-zero", "extreme-mix"])))
 
 
 def make_long_inst(rng, det, slow):
@@ -1585,7 +1612,9 @@ def run(ctx):
         "state; the agent-update clause against the policy's own next_agentstate re-invoked on the recorded arguments; "
         "differences between those and the spec's model of the policy class are DRIFT",
         "belief policies are started inside the support of the initial belief (otherwise Bayes' rule is undefined)",
-        "generators: random.Random(seed) (70%), the `random` module passed explicitly, and run_on's default generator; "
+        "generators: random.Random(seed), the `random` module passed explicitly, run_on's default generator, and "
+        "legal extreme generators whose random() returns exactly 0.0 / exactly 1-2**-53 (always, or mixed with ordinary "
+        "draws) against distributions that list zero-probability entries first / last; "
         "whether a generator is *used* (reproducibility, isolation) is C13's property, here every generator must give "
         "a valid trajectory",
         "value-based belief policies compare floats: an exactly tied action the real policy drops is not a finding "
